@@ -24,7 +24,7 @@ def lemmas(tier):
             ch["havoc"] = 0
             ch["nmsg"] = 1
         ls.append(Lemma("Z2.tags%d.vals%d%s" % (nt, nv, "" if dev else (".framed" if dev is False else ".framed.fresh")), "verifHarness_Z2_Corrupt", F, splits=[ch], split_depth="auto",
-                        intr=ChunkIntrinsics, scale=SCALE,
+                        intr=ChunkIntrinsics, scale=SCALE, opts={"make_assume_max": 24},
                         desc="Deserialize on a framed blob with %d symbolic tag bytes, %d symbolic value words, 0-2 message bytes, symbolic "
                              "version/size bytes/block types; %s; fresh or havoc'd "
                              "Serializer and destination; no panic, no hang; every accepted result is traversed (AdvanceInto, Advance, "
@@ -39,6 +39,7 @@ def lemmas(tier):
 def run(ctx):
     ctx.assume("compressed sections (block types 1 and 2) are handed to s2/zstd: third-party decoders outside reach; their contract here is "
                "'returns an error or fills dst completely, never panics' (an assumption, not a result)")
-    ctx.assume("declared section sizes small enough to allocate (statement): tape <= 6 words, sections < 128 bytes (single-byte varints)")
+    ctx.assume("declared section sizes small enough to allocate (statement): every make() whose length comes from the input is assumed <= 24 elements; "
+               "the compressed size of the message / tags block may be any 64-bit varint (variants 13/14)")
     ctx.assume("numeric accessors are total functions of (tag, word) given off < len(tape): covered for every payload by T2 (C12)")
     run_lemmas(ctx, lemmas(ctx.tier))
